@@ -117,7 +117,44 @@ def run(ctx):
         ctx.check(False, R2, 'on_content_progress:default->400', 'no default arm', cp.loc(sw))
     if val.get('eof') in cases:
         rs = first_return_in_case(cases[val['eof']])
-        ctx.check(rs.count(400) >= 2, R2, 'on_content_progress:eof-with-leftover-or-length-mismatch->400', 'eof with trailing bytes / wrong declared length accepted', cp.loc(cases[val['eof']]))
+        # inside the eof arm the only way not to answer 400 is with no bytes left over and read_size == content_length
+        cblk = [B.id for B in cp.blocks.values() if B.label == cases[val['eof']]]
+
+        def g_left(atom, pol):
+            n = cp.N(atom)
+            if n['k'] != 'BinaryOperator' or n.get('op') not in ('!=', '==') or not all(r.startswith(('v:', 'p:')) for r in cp.subtree_refs(atom)) or len(cp.subtree_refs(atom)) != 2:
+                return False
+            names_ = sorted(r.split(':', 1)[1].split('@')[0] for r in cp.subtree_refs(atom))
+            return names_ == ['begin', 'end'] and ((n['op'] == '!=' and pol is False) or (n['op'] == '==' and pol is True))
+
+        def g_len(atom, pol):
+            n = cp.N(atom)
+            if n['k'] != 'BinaryOperator' or n.get('op') not in ('!=', '=='):
+                return False
+            refs = set(r.rsplit('::', 1)[-1] for r in cp.subtree_refs(atom) if r.startswith('f:'))
+            return {'read_size', 'content_length'} <= refs and ((n['op'] == '!=' and pol is False) or (n['op'] == '==' and pol is True))
+        ok = bool(cblk) and all(c == 400 for c in rs if c is not None) and 400 in rs
+        if ok:
+            inarm = set()
+            stack = [cblk[0]]
+            brkb = set(b for b in cp.blocks if cp.blocks[b].term is not None and cp.N(cp.blocks[b].term)['k'] == 'BreakStmt')
+            while stack:
+                b = stack.pop()
+                if b in inarm:
+                    continue
+                inarm.add(b)
+                if b in brkb:
+                    continue
+                for (s_, _) in cp.succ_edges(b):
+                    if s_ != cp.exit and cp.contains(sw, _first_node(cp, s_)):
+                        stack.append(s_)
+            leave = [b for b in inarm if b in brkb]
+            for gate in (g_left, g_len):
+                ge = cp.gate_edges(gate)
+                ge = [e for e in ge if len(e) == 4 and e[0] in inarm]
+                reach = cp.reachable_blocks(start=cblk[0], cut_edges=ge)
+                ok = ok and bool(ge) and bool(leave) and not any(b in reach for b in leave)
+        ctx.check(ok, R2, 'on_content_progress:eof-with-leftover-or-length-mismatch->400', 'eof with trailing bytes / wrong declared length accepted', cp.loc(cases[val['eof']]))
     rw = [w for w in q.field_writes(cp, '_data::ready') if cp.const_value(cp.N(w)['ch'][1]) == 1]
 
     def all_read(atom, pol):
